@@ -209,9 +209,7 @@ class C10(Prop):
     rule = ("cases: qpack dec for L in {0,1,41,42,43,small,2^62-1,2^64-1} x sections of 1..4 fields whose size sweeps "
             "L-2..L+2 by padding one value, in random representation forms, plus random L; lim for both roles x "
             "headers/trailers x receive/send x limit sweep x SETTINGS before/after/absent/without the parameter x the "
-            "431 boundary 41/42/43; histories of 2..8 send_request calls on ONE client handle (accepted / refused for size in "
-            "every order, SETTINGS before the first or between the first and the second), each request stream compared with "
-            "the encoding of that request's own fields; non-trivial = implementation result is not bad-op; distinct = distinct case lines")
+            "431 boundary 41/42/43; non-trivial = implementation result is not bad-op; distinct = distinct case lines")
     trusted = ["http::HeaderMap iteration order for distinct names (insertion order)",
                "SimQuic + scenario interpreter (harness/src/{sim,exec,scen}.rs)"]
     assumptions = ["usize is 64 bits", "a field list held in memory has size below 2^64 (u64 sum in encode_stateless)",
@@ -347,5 +345,10 @@ class C10(Prop):
             out.append(" ".join(w[:-1]))
         return out
 
+
+# second round (histories on one handle): appended here so that the class body above stays as it was
+C10.rule = C10.rule.replace("; non-trivial = ", "; histories of 2..8 send_request calls on ONE client handle (accepted / refused for size "
+                            "in every order, SETTINGS before the first or between the first and the second), each request stream "
+                            "compared with the encoding of that request's own fields; non-trivial = ")
 
 PROP = C10()
